@@ -494,7 +494,7 @@ pub fn run_forest_program(ctx: &mut Ctx, fs: &[Vec<usize>], n: usize, idx: u64) 
         Next::Continue(Act::Step)
     });
     ctx.seq_tag = None;
-    if !finished && !ctx.stop && ctx.st.violations_total == before {
+    if !finished && !ctx.stop && ctx.st.violations_total == before && !ctx.panic_only {
         // lock step ended early without a reported violation: the program did not reach its end
         let mut c = init.clone();
         c.patches = crate::hv::sem::Small::new();
